@@ -463,6 +463,9 @@ func (c *FCGIClient) Request(p map[string]string, req io.Reader) (resp *http.Res
 		if len(statusParts) > 1 {
 			resp.Status = statusParts[1]
 		}
+		// the CGI status line is consumed here: it is not a header of
+		// the HTTP response (it used to be relayed to the client too)
+		resp.Header.Del("Status")
 
 	} else {
 		resp.StatusCode = http.StatusOK
